@@ -256,7 +256,7 @@ func genNames(t *rapid.T, o nameOpts) ([]string, []string) {
 			if rapid.Bool().Draw(t, "longnames") {
 				// names around and beyond 255 bytes (a filesystem's limit, not a UnixFS one)
 				tag := rapid.StringMatching(`[a-z]{3}`).Draw(t, "longtag")
-				for _, n := range rapid.SliceOfNDistinct(rapid.SampledFrom([]int{200, 254, 255, 256, 257, 258, 300, 511, 512, 1000, 4096}), 1, 4, rapid.ID[int]).Draw(t, "longlens") {
+				for _, n := range rapid.SliceOfNDistinct(rapid.SampledFrom([]int{200, 254, 255, 256, 257, 258, 300, 511, 512, 1000, 4096, 8191, 8192, 8193, 9000, 20000}), 1, 4, rapid.ID[int]).Draw(t, "longlens") {
 					add(tag + strings.Repeat("n", n-3))
 				}
 				classes["long(>=200)"] = true
